@@ -68,6 +68,13 @@ class Harness:
         self.kind = kv.get("kind", "functional")
         self.bounds, self.assumes, self.encodes, self.out = [], [], [], []
 
+    def fq(self):
+        """fully qualified harness name for `cargo kani --exact --harness` (without --exact the
+        filter is a substring match: `iterator_step` would also run iterator_step_uplink, ...)"""
+        rel = self.anchor.split("/src/", 1)[1][:-3]          # e.g. mac/session, sx127x/mod, lib
+        parts = [x for x in rel.split("/") if x not in ("mod", "lib")]
+        return "::".join(parts + [self.modname, self.id])
+
     def brief(self):
         return dict(id=self.id, file=os.path.relpath(self.file, VERIF), anchor=self.anchor,
                     build=self.build, bounds=" ".join(self.bounds), assumes=self.assumes,
@@ -260,6 +267,8 @@ def kani_cmd(build, harness_ids, target_dir, harness_timeout, extra=()):
     cmd = ["cargo", "kani", "-p", b["package"]] + b["args"] + [
         "--target-dir", target_dir, "-Z", "stubbing", "-Z", "unstable-options",
         "--harness-timeout", "%ds" % harness_timeout, "--default-unwind", "17", "--no-assertion-reach-checks"]
+    if harness_ids and all("::" in h for h in harness_ids):
+        cmd.append("--exact")
     for h in harness_ids:
         cmd += ["--harness", h]
     return cmd + list(extra)
